@@ -285,6 +285,14 @@ def _fn_value_key(cx, body, op, depth=0):
     return ("unk", "fn value")
 
 
+def _fixed_array_of(body, op):
+    """the array aggregate site when the iterator operand iterates a fixed array literal (`[a, b].into_iter()`)"""
+    for o in origins(body, op, transparent=tags.ELEMENT_PRESERVING):
+        if o.kind == "agg" and o.data.get("kind") == "array":
+            return o.site
+    return None
+
+
 def lits_of_literal(cx, body, op, depth=0):
     """[(sign, KIND, NODE)] for a `Literal` operand"""
     out = []
@@ -301,11 +309,25 @@ def lits_of_literal(cx, body, op, depth=0):
                 out += var_of_int(cx, body, args[0], depth + 1)
             elif callee_matches(c, r"ConstraintsEncoder::arg_to_lit$|DynamicConstraintsEncoder::arg_to_lit$"):
                 out.append(("+", ("arg_to_lit",), node_of_label(cx, body, args[-1])))
+            elif d == "core::iter::traits::iterator::Iterator::next" and _fixed_array_of(body, args[0]) is not None:
+                # `for lit in [a, b] { .. }`: one alternative per array element (expanded into one template each)
+                arr = _fixed_array_of(body, args[0])
+                gid = "%s@bb%d" % (body.id, o.site.bb)
+                for i, x in enumerate(arr.node["rv"]["ops"]):
+                    for sg, kd, nd in lits_of_literal(cx, body, x, depth + 1):
+                        out.append((sg, ("choice", gid, i, kd), nd))
             else:
                 tgt = cx.prog.body_for_callee(c, body) if c.get("decl") != "<indirect>" else None
-                if tgt is not None and tgt.kind != "closure" and tgt.ret_ty.endswith("sat::sat_solver::Literal") and depth < 4:
+                if tgt is not None and tgt.kind != "closure" and tgt.ret_ty.endswith("sat::sat_solver::Literal") and depth < MAX_DEPTH:
                     # a local helper building a literal from ids / labels it is given: instantiate its summary
                     for sg, kd, nd in lits_of_literal(cx, tgt, {"c": {"l": 0, "p": []}}, depth + 1):
+                        inner = kd[1] if kd[0] == "plus1" else kd
+                        if inner[0] == "ivar" and inner[1][0] == "param" and inner[1][1] - 1 < len(args):
+                            # the helper turns a variable number it is given into a literal: what the caller passes
+                            for sg2, kd2, nd2 in var_of_int(cx, body, args[inner[1][1] - 1], depth + 1):
+                                k3 = ("plus1", kd2) if kd[0] == "plus1" else kd2
+                                out.append((sg if sg2 == "+" else _flip(sg), k3, nd2))
+                            continue
                         if nd[0] == "idparam" and nd[1] - 1 < len(args):
                             nd = node_of_id(cx, body, args[nd[1] - 1])
                         elif nd[0] == "lab" and nd[1] - 1 < len(args):
@@ -313,6 +335,8 @@ def lits_of_literal(cx, body, op, depth=0):
                         out.append((sg, kd, nd))
                 else:
                     out.append(("?", ("unk", "call " + d), ("unk",)))
+        elif o.kind == "call" and False:
+            pass
         elif o.kind == "param":
             if body.kind == "closure" and o.data == 2:
                 out.append(("+", ("elem",), ("unk",)))
@@ -429,7 +453,11 @@ def _pushed_elements(cx, body, local, depth):
         for s in body.mut_call_defs.get(a, []):
             d = callee_decl(callee_of(s))
             if d == "alloc::vec::Vec::push":
-                many = bool(body.in_loop(s.bb))
+                # "once per iteration" only for a loop the vector outlives: a vector created inside the loop body is a new
+                # clause each time round
+                created = [dd.bb for al in aliases for dd in body.defs.get(al, []) if dd.si is None and callee_decl(callee_of(dd)) in ("alloc::vec::Vec::new", "alloc::vec::Vec::with_capacity", "alloc::boxed::box_assume_init_into_vec_unsafe", "alloc::vec::from_elem")]
+                loops_ = dict(body.loops())
+                many = any(not any(cb in loops_[h] for cb in created) for h in body.in_loop(s.bb)) if created else bool(body.in_loop(s.bb))
                 out += [(sg, kd, nd, many) for sg, kd, nd in lits_of_literal(cx, body, s.node["args"][1], depth + 1)]
             elif d == "alloc::vec::Vec::append":
                 out += [(sg, kd, nd, True) for sg, kd, nd, _ in clause_elements(cx, body, s.node["args"][1], depth + 1)]
@@ -517,6 +545,11 @@ def local_clause_sites(cx, fn):
             lits = clause_elements(cx, x, s.node["args"][1])
             per = "arg"
             lt = _loop_iter_target(cx, x, s.bb)
+            groups = sorted({k[1] for _, k, _, _ in lits if k[0] == "choice"})
+            if groups and lt == ("unk",):
+                # the loop over the fixed array is not an iteration over arguments / attackers
+                outer = [h for h in x.in_loop(s.bb)]
+                lt = None if len(outer) <= 1 else lt
             if lt is not None:
                 per = ("attacker", lt) if lt not in (("each-arg",), ("unk",)) else ("arg" if lt == ("each-arg",) else "loop")
             elif x is not fn:
@@ -524,6 +557,21 @@ def local_clause_sites(cx, fn):
                 per = ("attacker", tgt) if tgt != ("each-arg",) else "arg"
                 if tgt == ("unk",):
                     per = "loop"
+            if groups:
+                import itertools
+
+                alts = [sorted({k[2] for _, k, _, _ in lits if k[0] == "choice" and k[1] == g}) for g in groups]
+                for pick in itertools.product(*alts):
+                    chosen = dict(zip(groups, pick))
+                    ls = []
+                    for sg, k, nd, m in lits:
+                        if k[0] == "choice":
+                            if chosen[k[1]] == k[2]:
+                                ls.append((sg, k[3], nd, False))
+                        else:
+                            ls.append((sg, k, nd, m))
+                    out.append(ClauseT(ls, per, _guards(cx, x, s), s, [fn.path]))
+                continue
             out.append(ClauseT(lits, per, _guards(cx, x, s), s, [fn.path]))
     return out
 
